@@ -766,3 +766,174 @@ Proof.
       destruct (struct_slots_typed q k p vf g sl l fs (fun t0 c0 v0 H0 => IH p vf g t0 c0 v0 H0) Hs) as [m Hm].
       exists (S m). cbn [has_type]. rewrite E, Hg. exact Hm.
 Qed.
+
+(* ---------------------------------------------------------------- IsSet of a field that differs *)
+
+Definition base_scalar (c : category) : bool := is_base_or_enum c && negb (is_binary c).
+
+(* an optional scalar field with a declared default d that holds a value Go's "!=" tells
+   apart from d reports itself as set *)
+Lemma isset_when_differs fd d v :
+  base_scalar (fd_cat fd) = true -> go_neq v d = true -> is_set fd (Some d) v = true.
+Proof.
+  unfold base_scalar. intros Hb Hn. apply andb_true_iff in Hb as [Hb Hnb]. apply negb_true_iff in Hnb.
+  unfold is_set. rewrite Hb, Hnb. exact Hn.
+Qed.
+
+Lemma isset_when_differs_binary fd d v :
+  is_binary (fd_cat fd) = true -> bin_bytes v <> bin_bytes d -> is_set fd (Some d) v = true.
+Proof.
+  intros Hb Hn. unfold is_set.
+  replace (is_base_or_enum (fd_cat fd)) with true by (destruct (fd_cat fd); cbn in Hb; try discriminate; reflexivity).
+  rewrite Hb. apply negb_true_iff. apply beqb_false. exact Hn.
+Qed.
+
+(* containers, struct-likes, and every optional field without a default: set = not nil *)
+Lemma isset_pointer fd dv v :
+  (dv = None \/ is_base_or_enum (fd_cat fd) = false) -> is_set fd dv v = negb (is_nil v).
+Proof. intros [-> | H]; unfold is_set; [reflexivity|]. destruct dv; [rewrite H|]; reflexivity. Qed.
+
+(* go_neq is what it says for the scalar representations *)
+Lemma go_neq_int a b : go_neq (VInt a) (VInt b) = true <-> a <> b.
+Proof. cbn. rewrite negb_true_iff. apply Z.eqb_neq. Qed.
+Lemma go_neq_bool a b : go_neq (VBool a) (VBool b) = true <-> a <> b.
+Proof. cbn. rewrite negb_true_iff. destruct a, b; cbn; split; congruence. Qed.
+Lemma go_neq_str a b : go_neq (VStr a) (VStr b) = true <-> a <> b.
+Proof. cbn. rewrite negb_true_iff. apply beqb_false. Qed.
+
+(* storing into a slot *)
+Lemma get_set_slot fs id v :
+  In id (map fst fs) -> get_slot (set_slot (VStruct fs) id v) id = Some v.
+Proof.
+  cbn [set_slot get_slot]. induction fs as [|[i w] fs IH]; intros Hin; [contradiction|]. cbn [set_slot_in fst].
+  destruct (i =? id) eqn:E.
+  - cbn [find fst]. rewrite Z.eqb_refl. reflexivity.
+  - cbn [find fst]. rewrite E. apply IH. destruct Hin as [Heq|Hin]; [cbn in Heq; apply Z.eqb_neq in E; congruence | exact Hin].
+Qed.
+
+(* the property's sentence, on an object: store a value that differs from the declared
+   default into an optional scalar field; the field then reports itself as set and its getter
+   returns the stored value *)
+Lemma isset_after_set fs fd d v slot :
+  is_optional fd = true -> base_scalar (fd_cat fd) = true -> fd_default fd <> None ->
+  In (fd_id fd) (map fst fs) -> go_neq v d = true ->
+  get_slot (set_slot (VStruct fs) (fd_id fd) v) (fd_id fd) = Some slot ->
+  is_set fd (Some d) slot = true /\ getter fd (Some d) slot = v.
+Proof.
+  intros Ho Hb Hd Hin Hn Hg. rewrite get_set_slot in Hg by assumption. injection Hg as <-.
+  assert (Hs := isset_when_differs fd d v Hb Hn). split; [exact Hs|].
+  unfold getter, support_isset. rewrite Ho, orb_true_r, Hs.
+  replace (need_redirect fd) with false; [reflexivity|].
+  unfold need_redirect. unfold base_scalar in Hb. apply andb_true_iff in Hb as [Hb _].
+  replace (is_struct_like_category (fd_cat fd)) with false by (destruct (fd_cat fd); cbn in Hb; try discriminate; reflexivity).
+  replace (has_default fd) with true by (unfold has_default; destruct (fd_default fd); congruence).
+  rewrite Ho. reflexivity.
+Qed.
+
+(* the getter of an optional field of a freshly constructed struct returns the declared default *)
+Lemma getter_new_struct_default q n p f s x fd c :
+  new_struct q n p f s = Ok x -> NoDup (map fd_id (sl_fields s)) -> In fd (sl_fields s) ->
+  is_optional fd = true -> fd_default fd = Some c ->
+  exists v, eval_top q n p f (fd_type fd) c = Ok v /\ get_slot x (fd_id fd) = Some v /\
+            (base_scalar (fd_cat fd) = true -> self_equal v = true -> getter fd (Some v) v = v).
+Proof.
+  intros Hn Hnd Hin Ho Hc. destruct (new_struct_defaults q n p f s x fd Hn Hnd Hin) as [H1 _].
+  destruct (H1 c Hc) as (v & Hv & Hg). exists v. split; [exact Hv|]. split; [exact Hg|].
+  intros Hb Hs. unfold base_scalar in Hb. apply andb_true_iff in Hb as [Hb _].
+  rewrite getter_unset_is_default; [reflexivity | unfold support_isset; rewrite Ho; apply orb_true_r |].
+  apply is_set_default_itself; assumption.
+Qed.
+
+(* ---------------------------------------------------------------- kind mismatches *)
+
+(* which kinds of initializer a scalar or struct-like position admits *)
+Definition kind_ok (cat : category) (c : const_value) : bool :=
+  match c with
+  | CInt _ => match cat with CatBool | CatByte | CatI16 | CatI32 | CatI64 | CatDouble | CatEnum => true | _ => false end
+  | CDouble _ => match cat with CatBool | CatDouble => true | _ => false end
+  | CLiteral _ => match cat with CatString | CatBinary => true | _ => false end
+  | CIdent s _ => negb ((is_true s || is_false s) && match cat with CatString | CatBinary => true | _ => false end)
+  | CList _ => false
+  | CMap _ => is_struct_like_category cat
+  end.
+
+Definition scalar_or_struct (c : category) : bool :=
+  is_base_category c || is_struct_like_category c || match c with CatEnum => true | _ => false end.
+
+Lemma kind_mismatch_is_error q n p vf tf t c :
+  scalar_or_struct (ty_category t) = true -> kind_ok (ty_category t) c = false ->
+  eval q (S n) p vf tf t c = Error EKind.
+Proof.
+  intros Hs Hk. cbn [eval].
+  destruct (ty_category t) eqn:E; cbn in Hs; try discriminate; destruct c; cbn in Hk; try discriminate; try reflexivity.
+  all: try (rewrite andb_false_r in Hk; discriminate).
+  all: unfold bool_word; cbn [negb value_category is_base_category is_container_category is_struct_like_category category_code orb andb N.leb];
+    apply negb_false_iff in Hk; try rewrite andb_true_r in Hk; rewrite Hk; reflexivity.
+Qed.
+
+(* a struct literal must name fields, each at most once, with literal keys *)
+Lemma struct_literal_bad_key q n p vf tf t l g s :
+  is_struct_like_category (ty_category t) = true -> get_struct_like p tf t = Ok (g, s) ->
+  keys_ok s l = false -> eval q (S n) p vf tf t (CMap l) = Error EField.
+Proof.
+  intros Hc Hg Hk. rewrite eval_struct_literal by assumption. rewrite Hg. cbn [bind fst snd].
+  unfold struct_slots. rewrite Hk. reflexivity.
+Qed.
+
+(* a field that the Go struct stores by pointer cannot be given by an identifier (struct-like)
+   or at all (optional enum without default): the emitted address-of does not compile *)
+Lemma mention_slot_addr fd c v :
+  need_redirect fd = true -> is_base_category (fd_cat fd) = false ->
+  match c with CMap _ => is_struct_like_category (fd_cat fd) = false | _ => True end ->
+  mention_slot fd c v = Error EAddr.
+Proof.
+  intros Hn Hb Hc. unfold mention_slot. rewrite Hn, Hb. destruct (is_struct_like_category (fd_cat fd)); [|reflexivity].
+  destruct c; try reflexivity. discriminate.
+Qed.
+
+(* an enum member written through a typedef of the enum is refused (the semantic pass accepts
+   it): the selector is not an enum of the scope *)
+Lemma enum_via_typedef_is_error q n p vf tf t s ex g :
+  ty_category t = CatEnum -> ex_is_enum ex = true -> hop p vf (ex_index ex) = Ok g ->
+  find_enum g (ex_sel ex) = None ->
+  eval q (S n) p vf tf t (CIdent s (Some ex)) = Error EUndefined.
+Proof.
+  intros Hc He Hh Hf. cbn [eval]. rewrite Hc.
+  cbn [negb value_category is_base_category is_container_category is_struct_like_category category_code orb andb N.leb].
+  replace (bool_word CatEnum s) with (@None (result cval)) by (unfold bool_word; destruct (is_true s || is_false s); reflexivity).
+  unfold denotes. rewrite Hh. cbn [bind]. rewrite He, Hf. reflexivity.
+Qed.
+
+(* a non-empty literal for a typedef'd container: the backend dereferences the missing element type *)
+Lemma typedef_container_is_error q n p vf tf t c l :
+  (ty_category t = CatList \/ ty_category t = CatSet) -> ty_value t = None ->
+  eval q (S n) p vf tf t (CList (c :: l)) = Error EInternal.
+Proof. intros [Hc|Hc] Hv; cbn [eval]; rewrite Hc, Hv; reflexivity. Qed.
+
+(* ---------------------------------------------------------------- the two readings *)
+
+(* the generator's reading and the IDL's reading of a double differ exactly on -0.0 *)
+Definition neg_zero : N := 9223372036854775808.
+Definition double_ty : ty := Ty (B "double") None None [] [] CatDouble None None.
+
+Lemma eval_negative_zero_refuted :
+  exists f c, eval_top go_rules 1 [] f double_ty c = Ok (VDbl 0) /\
+              eval_top idl_rules 1 [] f double_ty c = Ok (VDbl two63) /\ two63 <> 0.
+Proof. exists (empty_file []), (CDouble neg_zero). split; [vm_compute; reflexivity|]. split; [vm_compute; reflexivity | discriminate]. Qed.
+
+(* everywhere else the two readings of a scalar initializer coincide *)
+Lemma go_double_agree b : dbl_is_zero b = false -> go_double go_rules b = go_double idl_rules b.
+Proof. intros H. unfold go_double, go_rules, idl_rules. cbn [q_negzero_lost andb]. rewrite H. destruct (negb (dbl_finite b)); reflexivity. Qed.
+
+(* fields a struct literal does not mention are Go zero, NOT the field's declared default *)
+Definition lit_field (d : option const_value) : field := Field 1 (B "a") ReqDefault (Ty (B "i32") None None [] [] CatI32 None None) d [] [].
+Definition lit_file : file :=
+  File (B "m.thrift") [] [] [] [] [] [] [StructLike SKStruct (B "S") [lit_field (Some (CInt 7))] [] []] [] [] []
+       (Some [(B "S", CatStruct)]).
+Definition lit_ty : ty := Ty (B "S") None None [] [] CatStruct None None.
+
+Lemma struct_literal_unmentioned_is_zero_not_default :
+  eval_top go_rules 3 [(B "m.thrift", lit_file)] lit_file lit_ty (CMap []) = Ok (VStruct [(1, VInt 0)]) /\
+  new_struct go_rules 3 [(B "m.thrift", lit_file)] lit_file (StructLike SKStruct (B "S") [lit_field (Some (CInt 7))] [] [])
+  = Ok (VStruct [(1, VInt 7)]).
+Proof. split; vm_compute; reflexivity. Qed.
